@@ -77,3 +77,12 @@ package config
 //@ func (*URLConfig).getAll
 //@   props C17 C10
 //@   loop 1 iter bestMatch.hostScore > iter(bestMatch.hostScore) || (bestMatch.hostScore == iter(bestMatch.hostScore) && (bestMatch.pathScore > iter(bestMatch.pathScore) || (bestMatch.pathScore == iter(bestMatch.pathScore) && bestMatch.userMatch >= iter(bestMatch.userMatch))))
+
+// C17 / C10: a configured host pattern matches a host only label by label: the
+// two have the same number of dot-separated labels and every label is equal or
+// the pattern's is "*" (one "*" stands for exactly one label, as in Git).
+//@ func compareHosts
+//@   props C17 C10
+//@   ensures result != 0 ==> len(typed(str_split(searchHostname, "."), "[]string")) == len(typed(str_split(configHostname, "."), "[]string"))
+//@   ensures result != 0 ==> forall_int(k, typed(str_split(configHostname, "."), "[]string")[k], 0 <= k && k < len(typed(str_split(configHostname, "."), "[]string")) ==> typed(str_split(configHostname, "."), "[]string")[k] == "*" || typed(str_split(configHostname, "."), "[]string")[k] == typed(str_split(searchHostname, "."), "[]string")[k])
+//@   loop 1 invariant forall_int(k, configHost[k], 0 <= k && k <= rangeindex ==> configHost[k] == "*" || configHost[k] == searchHost[k])
